@@ -171,8 +171,16 @@ fn c02_stack_off_exit_reached() {
 // reference step (ties the table order to the opcode nibble).  Opcode 0xD/0xF/0x8 are cut by assumption:
 // their handlers are decided directly (c02_stack_*, c03_trap_*), the table slot is checked by
 // c02_dispatch_slots below.
+fn cut_trap(_s: &mut RunState, _instr: u16) {
+    kani::assume(false);
+}
+fn cut_stack(_s: &mut RunState, _instr: u16) {
+    kani::assume(false);
+}
 #[kani::proof]
 #[kani::unwind(9)]
+#[kani::stub(RunState::trap, cut_trap)]
+#[kani::stub(RunState::stack, cut_stack)]
 fn c02_dispatch_effect() {
     let mut s = any_state();
     let instr: u16 = kani::any();
@@ -188,13 +196,40 @@ fn c02_dispatch_effect() {
     kani::cover!(op == 0x0 && s.pc != pre.pc);
 }
 
-/// The three remaining table slots point at the stack, rti and trap handlers.
+/// The table slots 0xD and 0xF lead to the stack-extension and trap handlers (handlers replaced by tag recorders).
+static mut DISPATCH_TAG: u8 = 0;
+static mut DISPATCH_INSTR: u16 = 0;
+fn tag_trap(_s: &mut RunState, instr: u16) {
+    unsafe {
+        DISPATCH_TAG = 0xF;
+        DISPATCH_INSTR = instr;
+    }
+}
+fn tag_stack(_s: &mut RunState, instr: u16) {
+    unsafe {
+        DISPATCH_TAG = 0xD;
+        DISPATCH_INSTR = instr;
+    }
+}
 #[kani::proof]
+#[kani::unwind(9)]
+#[kani::stub(RunState::trap, tag_trap)]
+#[kani::stub(RunState::stack, tag_stack)]
 fn c02_dispatch_slots() {
-    assert!(RunState::OP_TABLE[0xD] as usize == RunState::stack as usize);
-    assert!(RunState::OP_TABLE[0xF] as usize == RunState::trap as usize);
-    assert!(RunState::OP_TABLE[0x8] as usize == RunState::rti as usize);
-    kani::cover!(true);
+    let mut s = any_state();
+    let instr: u16 = kani::any();
+    let op = (instr >> 12) as u8;
+    kani::assume(op == 0xD || op == 0xF);
+    let probe: u16 = kani::any();
+    let pre = snap(&s);
+    let pre_probe = s.mem[probe as usize];
+    s.execute(instr);
+    unsafe {
+        assert!(DISPATCH_TAG == op && DISPATCH_INSTR == instr, "opcode 0xD / 0xF not dispatched to the stack / trap handler with the word itself");
+    }
+    assert_unchanged(&s, &pre, probe, pre_probe);
+    kani::cover!(op == 0xD);
+    kani::cover!(op == 0xF);
 }
 
 // ----------------------------------------------------------------- C03 H-loop
